@@ -8,13 +8,29 @@ META = dict(
     design_ref='DESIGN.md section 4, C12',
     technique='Coq proof (per-byte state machine, induction over the body and over the chunk list) + extracted-model '
               'correspondence against cppcms::impl::multipart_parser driven with explicit cut lists',
-    level_text=('PLACEHOLDER'),
-    level_note=('PLACEHOLDER'),
+    level_text=('Theorems in coq/C12/Props.v over an executable model of multipart_parser::consume (per-byte step with the two '
+                'chunk-sensitive spots), process_header/parse_content_disposition/parse_pair/unquote/content_type::parse, '
+                'http::request::on_content_start/on_content_progress/size_ok and parse_form_urlencoded/urldecode: (1) the result of a '
+                'multipart request is the same for every partition of the body into chunks (empty chunks and bytes beyond the declared '
+                'length included); (2) for boundary CR LF - - key with no CR in key the hand-restarted matcher writes exactly the content '
+                'and stops at the first delimiter, for every content free of the delimiter (refutation witness when key has a CR; soundness '
+                'for any boundary); (3) decode(encode parts) = parts for every list of parts (names, file names, MIME types, contents, '
+                'order) under every chunking and within the limits; (4) limits: declared length over multipart_form_data_limit => 413, '
+                'oversized form field => 413 and stays refused, missing boundary => 400, shorter / longer than declared and trailing bytes '
+                '=> 400, entries are published iff the closing delimiter ends exactly at the declared length; (5) multipart filter events '
+                'are chunking independent and on success are exactly the delivered entries, each once; (6) urlencoded round trip. Leaf '
+                'functions separator / ascii_to_lower / xdigit are regenerated from the current source and proved equal to the model leafs.'),
+    level_note=('Trusted: Coq kernel + vm_compute; cxx2v translator and clang AST (3 leaf functions only); ExtrOcamlBasic extraction; '
+                'the hand model of the parser, header parser and request driver is tied to the code by differential testing only '
+                '(bare multipart_parser with explicit cut lists incl. every 2-cut of small bodies; whole requests through a running '
+                'cppcms::service over SCGI with limits/filters/buffer sizes), not by proof. no_room_left (upload write failure), '
+                'temp-file creation/removal and the memory-to-file switch of file_buffer are checked by the oracle on the '
+                'implementation (directory listings), not modelled in Coq. HTTP and FastCGI front ends are not used for C12.'),
 )
 
 GEN = {
     'Gen_c12': dict(src='src/http_content_type.cpp',
-                    functions=[('separator', 'g_c12_separator'), ('ascii_to_lower', 'g_c12_to_lower')]),
+                    functions=[('separator', 'g_c12_separator'), ('ascii_to_lower', 'g_c12_to_lower'), ('xdigit', 'g_c12_xdigit')]),
 }
 
 SEPARATORS = set(b'()<>@,;:\\"/[]?={} \t')
@@ -290,7 +306,7 @@ def gen_cases(ctx):
         return key, [], encode_body(rng, key, [], style)
 
     # 1. well-formed small bodies, EVERY 2-cut (all2) + 1-byte feeding + hot 3..6-cuts
-    for i in range(ctx.scale(420, 6000)):
+    for i in range(ctx.scale(360, 6000)):
         style = PLAIN if i % 3 == 0 else FANCY
         key, parts, body = small_body(style)
         assert independent_split(key, body) == [p[3] for p in parts], (key, parts, body)
@@ -342,7 +358,7 @@ def gen_cases(ctx):
                                              rng.choice([1024, 4096, 65536, 7919]), hexs(body), expect_token(parts)))
 
     # 4. refused bodies derived from well-formed ones: truncations and trailing bytes ("!" = must not be delivered)
-    for i in range(ctx.scale(400, 5000)):
+    for i in range(ctx.scale(300, 5000)):
         key, parts, body = small_body(FANCY if i % 2 else PLAIN, 250)
         ct = enc_ct(rng, key, PLAIN)
         if rng.random() < 0.5 and len(body) > 1:
@@ -354,7 +370,7 @@ def gen_cases(ctx):
 
     # 5. malformed stream: mutated bodies, odd Content-Type headers, CR inside keys, lone CRs in headers.
     #    No expectation ("-"): correspondence + chunking agreement only.
-    for i in range(ctx.scale(500, 6000)):
+    for i in range(ctx.scale(350, 6000)):
         key, parts, body = small_body(FANCY, 250)
         ct = enc_ct(rng, key, FANCY)
         for _ in range(rng.randrange(1, 4)):
@@ -818,16 +834,21 @@ def run(ctx):
     res = vlib.coq_props('C12')
     ctx.proof(res)
     ctx.coverage['trusted_base'] = [
-        'Coq 8.16.1 kernel, vm_compute (256-point sweeps, witnesses)',
-        'tools/cxx2v.py + clang 14 JSON AST (separator, ascii_to_lower regenerated from private/http_protocol.h)',
-        'extraction: ExtrOcamlBasic, OCaml 4.13.1',
-        'harness/C12_multipart.cpp (driver loop copied from tests/multipart_parser_test.cpp / on_content_progress), ocaml/C12_driver.ml, '
-        'checks/C12.py (independent Python encoder, generators, oracle)',
-        'hand model of multipart_parser::consume/process_header/parse_pair, content_type::parse, skip_ws/tocken/unquote (coq/C12/Defs.v), '
-        'tied by correspondence']
+        'Coq 8.16.1 kernel, vm_compute (256-point sweeps, witnesses, non-vacuity examples)',
+        'tools/cxx2v.py + clang 14 JSON AST (separator, ascii_to_lower, xdigit regenerated from private/http_protocol.h)',
+        'extraction: ExtrOcamlBasic, OCaml 4.13.1; ocaml/C12_driver.ml (glue: cut lists, text formats, filter end/error counts, spill count)',
+        'harness/C12_multipart.cpp (driver loop of tests/multipart_parser_test.cpp / on_content_progress around the real multipart_parser)',
+        'harness/C12_service.cpp (in-process cppcms::service, SCGI client, filter applications; accept() interposed to see the server fd)',
+        'checks/C12.py (independent Python encoders for multipart and urlencoded bodies, generators, oracle)',
+        'hand model of multipart_parser::consume/process_header/parse_pair, content_type::parse, skip_ws/tocken/unquote, '
+        'request::on_content_start/on_content_progress/size_ok/parse_form_urlencoded, util::urldecode (coq/C12/Defs.v), tied by correspondence']
     ctx.assumptions = ['writes to the upload buffer succeed (no_room_left is an I/O failure, not modelled)',
-                       'boundary key contains no CR (RFC 2046 bchars) for matcher_correct / decode_encode',
-                       'char is signed 8-bit on this target (x86-64)']
+                       'boundary key contains no CR (RFC 2046 bchars) for matcher_correct / decode_encode / part_content_reconstructed',
+                       'decode_encode: part names and file names contain no CR, MIME type empty or already in normal form (wf_part)',
+                       'char is signed 8-bit on this target (x86-64)',
+                       'CONTENT_TYPE reaches http::request as a C string (no NUL inside)',
+                       'the request-level harness uses the SCGI front end only; a closed connection before the declared length is '
+                       'modelled as no answer (status none)']
     exe, err = vlib.build_harness('C12_multipart', ['C12_multipart.cpp'])
     if not exe:
         ctx.broke('harness build failed', err)
